@@ -1,0 +1,20 @@
+//go:build verif
+
+package types
+
+// VerifPeek returns the id of the registered transaction, if any. Diagnostics only.
+func (t *TransactionManager) VerifPeek() (string, bool) {
+	t.tmMutex.Lock()
+	defer t.tmMutex.Unlock()
+	if t.transaction == nil {
+		return "", false
+	}
+	return t.transaction.transactionId, true
+}
+
+// VerifWrapRollbacker lets the harness put a recording decorator around the real rollbacker.
+func (t *TransactionManager) VerifWrapRollbacker(f func(RollbackInterface) RollbackInterface) {
+	t.tmMutex.Lock()
+	defer t.tmMutex.Unlock()
+	t.rollbacker = f(t.rollbacker)
+}
